@@ -33,9 +33,12 @@ CASE_TIMEOUT = 600
 
 NAN = float("nan")
 # "the default thresholds": the statement defers to the implementation's default argument, so it is read from the signature
-DEFAULT = tuple(float(t) for t in inspect.signature(CALL.do_call).parameters["thresholds"].default)
-DEFAULT_INCREASING = all(a < b for a, b in zip(DEFAULT, DEFAULT[1:])) and len(DEFAULT) > 0  # else: no step oracle for it, only the derived clauses
 DOC_DEFAULT = (-1.1, -0.25, 0.2, 0.7)  # the documented vector, passed explicitly
+try:
+    DEFAULT = tuple(float(t) for t in inspect.signature(CALL.do_call).parameters["thresholds"].default)
+except Exception:  # noqa: BLE001 - no readable default: fall back to the documented one
+    DEFAULT = DOC_DEFAULT
+DEFAULT_INCREASING = all(a < b for a, b in zip(DEFAULT, DEFAULT[1:])) and len(DEFAULT) > 0  # else: no step oracle for it, only the derived clauses
 DOC12 = tuple(math.log2((i + 0.5) / 6) for i in range(12))
 GRID_Q = [-2, -1.1, -0.75, -0.5, -0.25, 0, 0.2, 0.45, 0.7, 1.2]
 GRID_T = [-3, -2, -1.1, -0.75, -0.5, -0.25, 0, 0.2, 0.45, 0.7, 1.0, 1.2]
@@ -118,7 +121,7 @@ def describe(tier):
             "threshold_vectors": f"default (argument omitted; tuple; list; ndarray), documented 12-vector log2((0..11+.5)/6) (tuple; ndarray), "
             f"[0], ints [-1,0,1], [-30,30], three adjacent floats at 0 and at 0.2, and every non-empty increasing subset of {grid} "
             f"({2 ** len(grid) - 1} vectors, lengths 1..{len(grid)})",
-            "log2_per_vector": "t0-1, t0-30; each t, nextafter(t,+-inf), t+-1e-9; midpoints; last+1e-9.., last+10; for each candidate r and "
+            "log2_per_vector": "t0-1, t0-30; each t, nextafter(t,+-inf), t+-1e-9; midpoints; last+1, last+10; for each candidate r and "
             "k = 1..14: log2(k/r) with both float neighbours and log2((k+d)/r), d in {.25,.5,.75}; one missing value",
             "ploidy": "1..6",
             "chromosome_classes": ["autosome (chr1/1)", "X", "Y"],
@@ -256,7 +259,8 @@ def run(case, ctx):
 
 
 def basic(ctx, out, rows, what, keybase, sub, need=("cn",)):
-    """A result, the same number of rows, the same coordinates, the columns asked for."""
+    """A result, the same number of rows, every input segment present, the columns asked for.  Returns the output frame with
+    its rows in the order of the input (the statement promises no row order; a segment is identified by its coordinates)."""
     if isinstance(out, Exc):
         ctx.violation(f"{what} returns a result on an in-scope table", f"{keybase}/raises/{out.key}", observed=out, sub=sub)
         return None
@@ -266,9 +270,14 @@ def basic(ctx, out, rows, what, keybase, sub, need=("cn",)):
         ctx.violation("the number of rows never changes", f"{keybase}/row-count", expected=len(rows), observed=len(df), sub=sub)
         return None
     coords = list(zip(df["chromosome"].tolist(), df["start"].tolist(), df["end"].tolist()))
-    if coords != [tuple(r[:3]) for r in rows]:
-        ctx.violation("rows keep their coordinates and order", f"{keybase}/coordinates", observed=coords[:5], sub=sub)
-        return None
+    want = [tuple(r[:3]) for r in rows]
+    if coords != want:
+        pos = {c: i for i, c in enumerate(coords)}
+        if len(pos) != len(coords) or set(pos) != set(want):
+            ctx.violation("every segment of the input is a row of the output", f"{keybase}/segments-not-preserved", observed=coords[:5], sub=sub)
+            return None
+        ctx.stratum("output-rows-reordered")
+        df = df.iloc[[pos[c] for c in want]]
     for col in need:
         if col not in df.columns:
             ctx.violation(f"a {col} column is reported", f"{keybase}/no-{col}-column", observed=list(df.columns), sub=sub)
@@ -584,12 +593,13 @@ def run_variants(case, ctx):
                     out = ctx.call(CALL.do_call, cna, varr, "threshold", ploidy, purity, male_ref, fem)
                 else:
                     out = ctx.call(CALL.do_call, cna, varr, "threshold", ploidy, purity, male_ref, fem, None, None, arg)
-                df = basic(ctx, out, rows5, "do_call(threshold, variants)", f"allelic/variants/{pk}", cfg, need=("cn", "cn1", "cn2", "baf"))
+                df = basic(ctx, out, rows5, "do_call(threshold, variants)", f"allelic/variants/{pk}", cfg, need=("cn", "cn1", "cn2"))
                 if df is None:
                     continue
                 ctx.stratum("allelic-path:variants/" + pk)
                 out_logs = df["log2"].tolist()
-                out_bafs = df["baf"].tolist()
+                # the rescaled BAF is read back only to classify findings and strata (it is not demanded)
+                out_bafs = df["baf"].tolist() if "baf" in df.columns else list(freqs)
                 cns = df["cn"].tolist()
                 judge_step(ctx, "do_call", cns, out_logs, kinds, thr, ploidy, male_ref, "step" + ("/purity<1" if rescaled else ""), sub_of, arg is None)
                 judge_allelic(ctx, df, has_baf, out_bafs, "variants", sub_of)
